@@ -11,7 +11,8 @@ MAXFUN_MSG = "Objective has been called MAXFUN times"
 MAXRESTART_MSG = "Reached maximum number of unsuccessful restarts"
 SMALL_MSG = "Objective is sufficiently small"
 
-LEDGER_MODS = ['self.nf', 'self.nx', 'G.calls', 'G.pts', 'G.pending', 'G.nanflag']
+LEDGER_MODS = ['self.nf', 'self.nx', 'G.calls', 'G.pts', 'G.pending', 'G.nanflag', 'G.lastx', 'G.lastvals', 'G.lastk', 'G.offered']
+MODEL_GHOSTS = ['G.mver', 'G.gen', 'G.lastslot', 'G.nptver']
 
 
 def build(repo):
@@ -35,11 +36,12 @@ def build(repo):
 
     # ---------------------------------------------------------------- Controller.evaluate_objective
     D.contract('Controller.evaluate_objective', tags=['C02', 'C04', 'C08', 'C10'],
-               params={'number_of_samples': 'int'},
+               params={'number_of_samples': 'int', 'x': 'val'},
                requires=['INV_ledger(self)', 'number_of_samples >= 1', 'not G.pending'],
                modifies=LEDGER_MODS, result=('evalvals', 'unk', 'int', 'optexit'),
-               ghost_return=[('G.pending', 'result[2] > 0'), ('G.nanflag', None)],
-               loops={0: ['!nodefault:: True',
+               ghost_return=[('G.pending', 'result[2] > 0'), ('G.nanflag', None), ('G.lastx', 'x'), ('G.lastvals', 'result[0]'),
+                             ('G.lastk', 'result[2]'), ('G.offered', '0')],
+               loops={'for:i#0': ['!nodefault:: True',
                           'num_samples_run == i_',
                           'self.nf == old(self.nf) + i_',
                           'INV_ledger(self)',
@@ -51,6 +53,7 @@ def build(repo):
                         'nx:: self.nx == old(self.nx) + (1 if result[2] > 0 else 0)',
                         'INV_ledger(self)',
                         'pending:: G.pending == (result[2] > 0)',
+                        ('latest evaluation recorded:: G.lastx == x and G.lastvals == result[0] and G.lastk == result[2] and G.offered == 0', 'C03'),
                         'no exit => all samples:: implies(isnone(result[3]), result[2] == number_of_samples)',
                         'exit flags:: implies(not isnone(result[3]), result[3].flag == EXIT_MAXFUN_WARNING or result[3].flag == EXIT_SUCCESS)',
                         'MAXFUN => nf == maxfun:: implies(not isnone(result[3]) and result[3].flag == EXIT_MAXFUN_WARNING, self.nf == self.maxfun)',
@@ -60,34 +63,77 @@ def build(repo):
                         'self.last_successful_run == old(self.last_successful_run)'])
 
     # ---------------------------------------------------------------- consumers of an evaluated point (ghost-defining)
-    for q in ('Model.change_point', 'Model.add_new_point', 'Model.save_point'):
-        D.contract(q, tags=['C04'], modifies=['G.pending'], ghost_return=[('G.pending', 'False')],
-                   ensures=['not G.pending'], assumed=True,
-                   notes='definition of the ghost flag: these three Model methods are the consumers of an evaluated point; '
-                         'that each of them keeps the best-so-far invariant is proved in domain M')
+    CONS_NOTE = ('ghost-defining contract: these Model methods are the consumers of an evaluated point; what they do with the data '
+                 '(record integrity, best-so-far) is proved on their real bodies in domain M; here the *call sites* must hand over one whole ledger entry')
+    T3 = ('C03', 'C11', 'C17')
+    D.contract('Model.change_point', tags=['C04', 'C03'], params={'k': 'int', 'x': 'val', 'rvec': 'val', 'eval_num': 'int'},
+               requires=[('an evaluated point is pending:: G.pending', 'C03'),
+                         ('point is the one just evaluated (step + base == evaluated x):: ABS(G.gen, x) == G.lastx',) + T3,
+                         ('residual is its first sample:: rvec == ROW(G.lastvals, 0)',) + T3,
+                         ('evaluation number is its point number:: eval_num == G.pts',) + T3],
+               modifies=['G.pending', 'G.offered', 'G.mver', 'G.lastslot', 'G.nptver'],
+               ghost_return=[('G.pending', 'False'), ('G.offered', '1'), ('G.mver', 'G.mver + 1'), ('G.lastslot', 'k'), ('G.nptver', 'G.nptver + 1')],
+               ensures=['not G.pending', 'G.offered == 1', 'G.mver == old(G.mver) + 1', 'G.lastslot == k', 'G.nptver == old(G.nptver) + 1'], assumed=True, notes=CONS_NOTE)
+    D.contract('Model.add_new_point', tags=['C04', 'C03'], params={'x': 'val', 'rvec': 'val', 'eval_num': 'int'},
+               requires=[('an evaluated point is pending:: G.pending', 'C03'),
+                         ('point is the one just evaluated (step + base == evaluated x):: ABS(G.gen, x) == G.lastx',) + T3,
+                         ('residual is its first sample:: rvec == ROW(G.lastvals, 0)',) + T3,
+                         ('evaluation number is its point number:: eval_num == G.pts',) + T3],
+               modifies=['G.pending', 'G.offered', 'G.mver', 'G.lastslot', 'G.nptver'],
+               ghost_return=[('G.pending', 'False'), ('G.offered', '1'), ('G.mver', 'G.mver + 1'), ('G.nptver', 'G.nptver + 1'), ('G.lastslot', 'NPT(G.nptver) - 1')],
+               ensures=['not G.pending', 'G.offered == 1', 'G.mver == old(G.mver) + 1', 'G.nptver == old(G.nptver) + 1', 'G.lastslot == NPT(G.nptver) - 1'], assumed=True, notes=CONS_NOTE)
+    D.contract('Model.add_new_sample', tags=['C03', 'C02', 'C17'], params={'k': 'int', 'rvec_extra': 'val'},
+               requires=[('sample belongs to the point just stored:: k == G.lastslot', 'C03', 'C17'),
+                         ('samples are offered in order, each once:: G.offered >= 1 and G.offered < G.lastk and rvec_extra == ROW(G.lastvals, G.offered)', 'C03', 'C17', 'C02')],
+               modifies=['G.offered', 'G.mver'],
+               ghost_return=[('G.offered', 'G.offered + 1'), ('G.mver', 'G.mver + 1'), ('G.lastslot', 'G.lastslot')],
+               ensures=['G.offered == old(G.offered) + 1', 'G.mver == old(G.mver) + 1'], assumed=True, notes=CONS_NOTE)
+    D.contract('Model.save_point', tags=['C04', 'C03'],
+               params={'x': 'val', 'rvec': 'val', 'nsamples': 'int', 'eval_num': 'int', 'x_in_abs_coords': 'bool'},
+               requires=[('saved entry is one whole ledger entry (the pending evaluation, averaged over all its samples, or the incumbent record):: '
+                          '(G.pending and x_in_abs_coords and x == G.lastx and rvec == MEANV(G.lastvals, nsamples) and nsamples == G.lastk and eval_num == G.pts) or '
+                          '(x_in_abs_coords and x == REC_X(G.mver) and rvec == REC_R(G.mver) and nsamples == REC_NS(G.mver) and eval_num == REC_EN(G.mver))',) + T3],
+               modifies=['G.pending', 'G.offered'],
+               ghost_return=[('G.pending', 'False'), ('G.offered', 'G.lastk')],
+               ensures=['not G.pending', 'G.offered == G.lastk'], assumed=True, notes=CONS_NOTE)
+    D.contract('Model.get_final_results', tags=['C03', 'C11'], modifies=['G.ent', 'G.entjac'],
+               result=('val', 'val', 'val', 'opt:val', 'int', 'int', 'opt:val'), assumed=True,
+               ensures=['result[0] == EX(G.ent) and result[1] == ER(G.ent) and result[2] == EO(G.ent) and result[4] == ENS(G.ent) and result[5] == EEN(G.ent)',
+                        'isnone(result[3]) or (result[3] == EJ(G.entjac) and result[6] == EJN(G.entjac))'],
+               notes='proved on the real body in domain M: the seven values are one whole record (incumbent or saved slot) with its own Jacobian pair')
+    D.contract('Model.shift_base', tags=['C03'], modifies=['G.gen'], ghost_return=[('G.gen', 'G.gen + 1')],
+               ensures=['G.gen == old(G.gen) + 1'], assumed=True,
+               notes='ghost-defining: a base shift starts a new base generation (absolute points are unchanged: proved in domain M)')
 
     # ---------------------------------------------------------------- Controller.__init__
     D.contract('Controller.__init__', tags=['C02'], params={'nf': 'int', 'nx': 'int', 'maxfun': 'int'},
-               modifies=['self.*'],
+               modifies=['self.*', 'G.mver', 'G.gen', 'G.lastslot', 'G.proj', 'G.nptver'],
+               ghost_return=[('G.mver', None), ('G.gen', None), ('G.lastslot', None), ('G.proj', None), ('G.nptver', None)],
                ensures=['self.nf == nf', 'self.nx == nx', 'self.maxfun == maxfun', 'self.last_successful_run == 0'])
 
     # ---------------------------------------------------------------- Controller methods that may evaluate
-    common_req = ['INV_ledger(self)', 'not G.pending']
+    common_req = ['INV_ledger(self)', 'not G.pending', 'every stored point has all its samples:: G.offered == G.lastk']
     common_ens = ['INV_ledger(self)', 'no point left pending:: not G.pending',
+                  ('every stored point has all its samples:: G.offered == G.lastk', 'C02', 'C03', 'C17'),
                   'exit flag is a run-time flag:: implies(not isnone($E), flag_ok($E))',
                   'not the max-restarts message:: implies(not isnone($E), $E.msg != "%s") or %s' % (MAXRESTART_MSG, '$SOFT'),
                   'self.nf >= old(self.nf)', 'self.nx >= old(self.nx)',
                   'MAXFUN => nf == maxfun:: implies(not isnone($E) and $E.flag == EXIT_MAXFUN_WARNING, self.nf == self.maxfun)']
-    common_inv = ['INV_ledger(self)', 'no point left pending:: not G.pending', 'self.nf >= old(self.nf)', 'self.nx >= old(self.nx)']
+    common_inv = ['INV_ledger(self)', 'no point left pending:: not G.pending', 'self.nf >= old(self.nf)', 'self.nx >= old(self.nx)',
+                  ('every stored point has all its samples:: G.offered == G.lastk', 'C02', 'C03', 'C17'), 'G.proj == old(G.proj)']
+
+    def sub(c, exit_expr, q):
+        f = lambda t: t.replace('$E', exit_expr).replace('$SOFT', 'True' if q.endswith('soft_restart') else 'False')
+        return (f(c[0]),) + tuple(c[1:]) if isinstance(c, tuple) else f(c)
 
     def method(q, res, exit_expr, extra_ens=(), extra_req=(), extra_mod=(), params=None, **kw):
         D.contract(q, tags=['C02', 'C04', 'C08', 'C10'], params=dict({'number_of_samples': 'int'}, **(params or {})),
                    requires=common_req + ['number_of_samples >= 1'] + list(extra_req),
-                   modifies=LEDGER_MODS + list(extra_mod), result=res,
-                   ensures=[c.replace('$E', exit_expr).replace('$SOFT', 'True' if q.endswith('soft_restart') else 'False') for c in common_ens] + list(extra_ens),
+                   modifies=LEDGER_MODS + MODEL_GHOSTS + list(extra_mod), result=res,
+                   ensures=[sub(c, exit_expr, q) for c in common_ens] + list(extra_ens),
                    ledger_inv=common_inv, **kw)
 
-    method('Controller.geometry_step', 'optexit', 'result')
+    method('Controller.geometry_step', 'optexit', 'result', params={'knew': 'int'})
     method('Controller.check_and_fix_geometry', ('bool', 'optexit'), 'result[1]')
     method('Controller.add_new_direction_while_growing', 'optexit', 'result')
     method('Controller.initialise_coordinate_directions', 'optexit', 'result',
@@ -98,8 +144,8 @@ def build(repo):
            dead=['return#1'])
     method('Controller.move_furthest_points', 'optexit', 'result')
     method('Controller.move_furthest_points_momentum', 'optexit', 'result')
-    method('Controller.soft_restart', 'optexit', 'result', params={'nruns_so_far': 'int'},
-           extra_req=['nruns_so_far >= 0'],
+    method('Controller.soft_restart', 'optexit', 'result', params={'nruns_so_far': 'int', 'x_in_abs_coords_to_save': 'opt:val'},
+           extra_req=['nruns_so_far >= 0', 'no caller passes an extra point to save:: isnone(x_in_abs_coords_to_save)'],
            extra_mod=['G.restarts', 'self.last_successful_run'],
            ghost_return=[('G.restarts', 'G.restarts + (1 if isnone(result) else 0)')],
            extra_ens=['restart counted:: G.restarts == old(G.restarts) + (1 if isnone(result) else 0)',
@@ -108,7 +154,7 @@ def build(repo):
                       ('restart => budget left:: implies(isnone(result), old(self.nf) < self.maxfun)', 'C02')])
 
     # choose_point_to_replace / calculate_ratio: no ledger effect, but they return an optional exit
-    D.contract('Controller.choose_point_to_replace', tags=['C10'], modifies=[], result=('unk', 'optexit'), assumed=False,
+    D.contract('Controller.choose_point_to_replace', tags=['C10'], modifies=[], result=('int', 'optexit'), assumed=False,
                ensures=['implies(not isnone(result[1]), result[1].flag == EXIT_LINALG_ERROR)'])
     D.contract('Controller.calculate_ratio', tags=['C10'], modifies=['self.diffs', 'self.last_successful_iter'], result=('unk', 'optexit'),
                ensures=['implies(not isnone(result[1]), result[1].flag == EXIT_TR_INCREASE_WARNING or result[1].flag == EXIT_TR_INCREASE_ERROR)'])
@@ -116,38 +162,47 @@ def build(repo):
     # ---------------------------------------------------------------- solve_main
     D.contract('solve_main', tags=['C02', 'C04', 'C08', 'C10'],
                params={'maxfun': 'int', 'nruns_so_far': 'int', 'nf_so_far': 'int', 'nx_so_far': 'int', 'npt': 'int',
-                       'r0_avg_old': 'opt:unk', 'objfun': 'cb:objfun', 'nsamples': 'cb:nsamples', 'h': 'opt:cb:h'},
+                       'r0_avg_old': 'opt:val', 'objfun': 'cb:objfun', 'nsamples': 'cb:nsamples', 'h': 'opt:cb:h', 'x0': 'val',
+                       'r0_nsamples_old': 'opt:int'},
                requires=['G.calls == nf_so_far', 'G.pts == nx_so_far', '0 <= nx_so_far', 'nx_so_far <= nf_so_far',
-                         'nf_so_far <= maxfun', 'maxfun == G.maxfun', 'not G.pending', 'nruns_so_far >= 0',
+                         'nf_so_far <= maxfun', 'maxfun == G.maxfun', 'not G.pending', 'nruns_so_far >= 0', 'G.offered == G.lastk',
                          'fresh evaluation needs budget:: implies(isnone(r0_avg_old), nf_so_far < maxfun)',
                          'implies(params("init.run_in_parallel"), params("init.random_initial_directions"))'],
-               modifies=['G.calls', 'G.pts', 'G.pending', 'G.nanflag', 'G.restarts',
+               modifies=['G.calls', 'G.pts', 'G.pending', 'G.nanflag', 'G.restarts', 'G.lastx', 'G.lastvals', 'G.lastk', 'G.offered', 'G.proj',
+                         'G.ent', 'G.entjac'] + MODEL_GHOSTS + [
                          'params[growing.full_rank.use_full_rank_interp]', 'params[growing.perturb_trust_region_step]',
                          'params[growing.delta_scale_new_dirns]'],
-               result=('unk', 'unk', 'unk', 'unk', 'unk', 'int', 'int', 'int', 'exit', 'unk', 'unk', 'unk'),
+               result=('val', 'val', 'val', 'opt:val', 'int', 'int', 'int', 'int', 'exit', 'unk', 'int', 'opt:val'),
                ledger_inv=['INV_ledger(control)', 'no point left pending:: not G.pending',
+                           ('every stored point has all its samples:: G.offered == G.lastk', 'C02', 'C03', 'C17'),
                            'run accounting:: nruns_so_far == old(nruns_so_far) + G.restarts - old(G.restarts)',
                            'control.maxfun == maxfun', 'nruns_so_far >= 0', 'G.calls >= old(G.calls)',
                            'G.restarts >= old(G.restarts)'],
-               loops={0: ['!nodefault:: True',
+               loops={'for:i#0': ['!nodefault:: True',
                           'nf == nf_so_far + i_', 'num_samples_run == i_', 'G.calls == nf', 'nf <= maxfun',
                           'nx == nx_so_far + 1', 'G.pts == nx', 'isnone(exit_info)',
                           'nruns_so_far == old(nruns_so_far)', 'G.restarts == old(G.restarts)', 'not G.pending']},
-               asserts={'break@loop1': [
+               asserts={'return#1': [('exit at x0 names x0 as evaluation point nx:: result[10] == nx and result[4] == num_samples_run and result[0] == x0', 'C03'),
+                                           ('no Jacobian at the x0 exit:: isnone(result[3])', 'C11')],
+                        'break@while#0': [
                    ('trial point offered or NaN:: not G.pending or G.nanflag', 'C04', 'C08'),
                    ('run accounting:: nruns_so_far == old(nruns_so_far) + G.restarts - old(G.restarts) + 1', 'C10'),
                    ('exit reason set:: not isnone(exit_info)', 'C07', 'C10'),
                    ('exit flag is a run-time flag:: flag_ok(exit_info)', 'C07', 'C10'),
                    ('MAXFUN => nf == maxfun:: implies(exit_info.flag == EXIT_MAXFUN_WARNING, control.nf == control.maxfun)', 'C10'),
                ]},
-               ghost_return=[('G.pending', 'False')],
-               ensures=['nf returned == calls made:: result[5] == G.calls',
+               ghost_return=[('G.pending', 'False'), ('G.offered', 'G.lastk')],
+               ghost_return_at={'return#1': [('G.ent', 'newent(result[0], result[1], result[2], result[4], result[10])')]},
+               ensures=[('returned (x, resid, obj, nsamples, eval number) is one whole entry:: result[0] == EX(G.ent) and result[1] == ER(G.ent) and '
+                         'result[2] == EO(G.ent) and result[4] == ENS(G.ent) and result[10] == EEN(G.ent)', 'C03'),
+                        ('returned Jacobian comes with its own evaluation numbers:: isnone(result[3]) or (result[3] == EJ(G.entjac) and result[11] == EJN(G.entjac))', 'C11'),
+                        'nf returned == calls made:: result[5] == G.calls',
                         'nx returned == points:: result[6] == G.pts',
                         'budget:: G.calls <= maxfun',
                         '0 <= result[6] and result[6] <= result[5]',
                         'calls only grow:: G.calls >= old(G.calls)',
                         'run accounting:: result[7] == old(nruns_so_far) + G.restarts - old(G.restarts) + 1',
-                        'not G.pending', 'result[7] >= old(nruns_so_far) + 1', 'G.restarts >= old(G.restarts)',
+                        'not G.pending', 'result[7] >= old(nruns_so_far) + 1', 'G.restarts >= old(G.restarts)', 'G.offered == G.lastk',
                         ('exit flag is a run-time flag:: flag_ok(result[8])', 'C07', 'C10'),
                         ('MAXFUN => nf == maxfun:: implies(result[8].flag == EXIT_MAXFUN_WARNING, result[5] == maxfun)', 'C10')])
 
@@ -155,18 +210,32 @@ def build(repo):
     D.contract('solve', tags=['C02', 'C04', 'C08', 'C10'],
                params={'maxfun': 'opt:int', 'npt': 'opt:int', 'objfun': 'cb:objfun', 'nsamples': 'opt:cb:nsamples', 'h': 'opt:cb:h',
                        'x0': 'unk'},
-               requires=['G.calls == 0', 'G.pts == 0', 'not G.pending', 'G.restarts == 0'],
+               types={},
+               requires=['G.calls == 0', 'G.pts == 0', 'not G.pending', 'G.restarts == 0', 'G.offered == G.lastk'],
+               ghost_after_assign={'xmin': [('G.best', 'G.ent')], 'jacmin': [('G.bestjac', 'G.entjac')]},
                ghost_before={'solve_main#1': [('G.maxfun', 'maxfun')],
                              'solve_main#2': [('G.restarts', 'G.restarts + 1')],
                              'solve_main#3': [('G.restarts', 'G.restarts + 1')]},
                asserts={'before:solve_main#1': [('budget is the caller\'s:: implies(not isnone(old(maxfun)), maxfun == old(maxfun))', 'C02')]},
-               loops={1: ['!nodefault:: True', 'nf == G.calls', 'nx == G.pts', '0 <= nx', 'nx <= nf', 'nf <= maxfun',
-                          'maxfun == G.maxfun', 'not G.pending', 'nruns == G.restarts + 1', 'last_successful_run >= 0',
+               loops={'for:i#0': [('columns 0..i-1 of the returned Jacobian have been divided by their scale, once, in order:: '
+                                   'not isnone(jacmin) and jacmin == UNSC(EJ(G.bestjac), i_) and n >= 0', 'C11')],
+                      'while#0': ['!nodefault:: True', 'nf == G.calls', 'nx == G.pts', '0 <= nx', 'nx <= nf', 'nf <= maxfun',
+                          'maxfun == G.maxfun', 'not G.pending', 'nruns == G.restarts + 1', 'last_successful_run >= 0', 'G.offered == G.lastk',
                           'last_successful_run <= nruns', 'flag_ok(exit_info)',
+                          ('best-so-far tuple is one whole entry:: xmin == EX(G.best) and rmin == ER(G.best) and objmin == EO(G.best) and '
+                           'nsamples_min == ENS(G.best) and xmin_eval_num == EEN(G.best)', 'C03'),
+                          ('Jacobian kept with its own evaluation numbers:: isnone(jacmin) or (jacmin == EJ(G.bestjac) and jacmin_eval_nums == EJN(G.bestjac))', 'C11'),
                           ('MAXFUN => nf == maxfun:: implies(exit_info.flag == EXIT_MAXFUN_WARNING, nf == maxfun)', 'C10')]},
                modifies=['G.*', 'params[*]'], result='unk',
                msg_asserts={MAXRESTART_MSG: [('that many runs were performed:: nruns >= params("restarts.max_unsuccessful_restarts")', 'C10')]},
-               ensures=[('soln.nf == calls made:: implies(result.flag != EXIT_INPUT_ERROR, result.nf == G.calls)', 'C02'),
+               ensures=[('soln.x / resid / obj / xmin_eval_num are one whole returned entry:: implies(result.flag != EXIT_INPUT_ERROR, result.x == RS(EX(G.best)) and '
+                         'result.resid == ER(G.best) and result.obj == EO(G.best) and result.xmin_eval_num == EEN(G.best))', 'C03'),
+                        ('soln.jacobian is the Jacobian of that pair, un-scaled column by column exactly when scaling is on:: '
+                         'implies(result.flag != EXIT_INPUT_ERROR and not isnone(result.jacobian), '
+                         'result.jacobian == ite(not isnone(scaling_changes), UNSC(EJ(G.bestjac), n), EJ(G.bestjac)))', 'C11'),
+                        ('soln.jacmin_eval_nums belong to soln.jacobian:: implies(result.flag != EXIT_INPUT_ERROR and not isnone(result.jacobian), '
+                         'result.jacmin_eval_nums == EJN(G.bestjac))', 'C11'),
+                        ('soln.nf == calls made:: implies(result.flag != EXIT_INPUT_ERROR, result.nf == G.calls)', 'C02'),
                         ('calls <= maxfun:: implies(result.flag != EXIT_INPUT_ERROR, G.calls <= G.maxfun)', 'C02', 'C08'),
                         ('soln.nx == last point number:: implies(result.flag != EXIT_INPUT_ERROR, result.nx == G.pts)', 'C02'),
                         ('soln.nruns == restarts + 1:: implies(result.flag != EXIT_INPUT_ERROR, result.nruns == G.restarts + 1)', 'C10'),
